@@ -182,4 +182,4 @@ impl CompressionMethod {
 // Verification hook (inert unless built by `cargo kani`): harnesses for the private items of this module.
 #[cfg(kani)]
 #[path = "/verif/kani/incrate/h_geno_builder.rs"]
-mod verif_kani;
+pub(crate) mod verif_kani;
